@@ -4,6 +4,9 @@ import ForML.Model.Sexp
 import ForML.Model.Tag
 import ForML.Model.Keys
 import ForML.Model.Manifest
+import ForML.Model.ManifestStore
+import ForML.Model.ManifestLoad
+import ForML.Model.KeysValue
 open ForML
 
 namespace C18Drv
@@ -155,10 +158,10 @@ def pair? : Sexp → Option (List Nat × List Nat)
   | .list [k, v] => do pure ((← cps? k), (← cps? v))
   | _ => none
 
-open ForML.Manifest in
+open ForML.Load in
 partial def node? : Sexp → Option Node
-  | .list [.atom "f", .atom n] => some (.file n)
-  | .list [.atom "d", .atom n, .list cs] => (cs.mapM node?).map (.dir n)
+  | .list [.atom "f", n] => (cps? n).map .file
+  | .list [.atom "d", n, .list cs] => do pure (.dir (← cps? n) (← cs.mapM node?))
   | _ => none
 
 open ForML.Manifest in
@@ -172,10 +175,128 @@ def stepManifest : Sexp → Option Sexp
       | .error .syntax => .list [.atom "error", .atom "syntax"]
       | .error .outOfModel => .list [.atom "error", .atom "out-of-model"]
     pure (.list [ofCps text, res])
+  | _ => none
+
+/-! package content and component resolution -/
+def ofFound : ForML.Load.Found → Sexp
+  | .package => .atom "package"
+  | .module => .atom "module"
+  | .nothing => .atom "nothing"
+
+open ForML.Load in
+def stepLoad : Sexp → Option Sexp
   | .list [.atom "package", .list nodes] => do
     let nodes ← nodes.mapM node?
     let names := archive nodes
-    pure (.list [.list (names.map .atom), Sexp.ofBool (zipSafe names)])
+    pure (.list [.list (names.map ofCps), Sexp.ofBool (zipSafe names)])
+  | .list [.atom "components", pkg, .list ms, .list nodes] => do
+    let pkg ← cps? pkg
+    let ms ← ms.mapM pair?
+    let nodes ← nodes.mapM node?
+    match load pkg ms with
+    | .error .unexpected => pure (.list [.atom "error", .atom "UnexpectedError"])
+    | .ok names =>
+      pure (.list [.atom "ok", .list (names.map (fun n =>
+        let segs := splitDots n
+        .list [ofCps n, ofFound (locate nodes segs), ofFound (locate (installed nodes) segs), Sexp.ofBool (segsOk true segs)]))])
+  | _ => none
+
+/-! histories over locations -/
+def ofVersion (v : ForML.Keys.Version) : Sexp :=
+  .list [Sexp.ofNat v.epoch, Sexp.ofNats v.release,
+         match v.pre with | none => .atom "none" | some (k, n) => .list [Sexp.ofNat k, Sexp.ofNat n],
+         ofOpt Sexp.ofNat v.post, ofOpt Sexp.ofNat v.dev,
+         match v.loc with
+         | none => .atom "none"
+         | some segs => .list (segs.map (fun | .num n => .list [.atom "num", Sexp.ofNat n] | .str t => .list [.atom "str", ofCps t]))]
+
+open ForML.Store in
+def sm? : Sexp → Option SM
+  | .list [n, v, p, .list ms] => do
+    pure { name := ← cps? n, version := ← version? v, package := ← cps? p, modules := ← ms.mapM pair? }
+  | _ => none
+
+open ForML.Store in
+def ofSM (m : SM) : Sexp :=
+  .list [ofCps m.name, ofVersion m.version, ofCps m.package, .list (m.modules.map (fun kv => .list [ofCps kv.1, ofCps kv.2]))]
+
+open ForML.Store in
+def tree? : Sexp → Option Tree
+  | .list [i, b] => do pure { id := ← i.nat?, safe := ← bool? b }
+  | _ => none
+
+open ForML.Store in
+def ofTree (t : Tree) : Sexp := .list [Sexp.ofNat t.id, Sexp.ofBool t.safe]
+
+open ForML.Store in
+def op? : Sexp → Option Op
+  | .list [.atom "write", p, m, t] => do pure (.write (← p.nat?) (← sm? m) (← t.nat?))
+  | .list [.atom "create", p, m, tr] => do pure (.create (← p.nat?) (← sm? m) (← tree? tr))
+  | .list [.atom "install", a, b, t] => do pure (.install (← a.nat?) (← b.nat?) (← t.nat?))
+  | .list [.atom "read", p] => do pure (.read (← p.nat?))
+  | .list [.atom "remove", p] => do pure (.remove (← p.nat?))
+  | _ => none
+
+open ForML.Store in
+def ofObs : Obs → Sexp
+  | .done => .atom "done"
+  | .manifest m => .list [.atom "manifest", ofSM m]
+  | .installed m tr => .list [.atom "installed", ofSM m, ofOpt ofTree tr]
+  | .error .missing => .list [.atom "error", .atom "missing"]
+  | .error .fileExists => .list [.atom "error", .atom "file-exists"]
+  | .error .isDir => .list [.atom "error", .atom "is-dir"]
+
+open ForML.Store in
+/-- per operation: is it harmless for the bytecode cache (`okOp`) and for the finder cache (`okKind`) on the state it meets -/
+def okFlags (bc : Bool) : Store → Memo → List Op → List (Bool × Bool)
+  | _, _, [] => []
+  | s, k, op :: h => (okOp s op, okKind bc s k op) :: okFlags bc (pstep bc s k op).1 (pstep bc s k op).2.1 h
+
+open ForML.Store in
+def stepStore : Sexp → Option Sexp
+  | .list [.atom "store", bc, .list ops] => do
+    let bc ← bool? bc
+    let ops ← ops.mapM op?
+    pure (.list [.list ((prun bc Store.empty Memo.empty ops).2.2.map ofObs),
+                 .list ((okFlags bc Store.empty Memo.empty ops).map (fun f => .list [Sexp.ofBool f.1, Sexp.ofBool f.2])),
+                 .list ((lrun (abs Store.empty) ops).2.map ofObs), Sexp.ofBool (ticking 0 ops)])
+  | _ => none
+
+/-! keys from Python values, PEP 440 text -/
+open ForML.Keys in
+def pyval? : Sexp → Option PyVal
+  | .list [.atom "int", i] => i.int?.map .int
+  | .list [.atom "bool", b] => (bool? b).map .bool
+  | .list [.atom "float", r] => (cps? r).map .float
+  | .list [.atom "str", r] => (cps? r).map .str
+  | .list [.atom "bytes", r] => (cps? r).map .bytes
+  | .atom "none" => some .none
+  | .list [.atom "tuple", r] => (cps? r).map .tuple
+  | .list [.atom "version", v] => (version? v).map .version
+  | _ => none
+
+open ForML.Keys in
+def ofGenKey : Except KeyErr Nat → Sexp
+  | .ok k => .list [.atom "ok", Sexp.ofNat k, Sexp.ofNat (genNext k)]
+  | .error .notInteger => .list [.atom "error", .atom "not-integer"]
+  | .error .notNatural => .list [.atom "error", .atom "not-natural"]
+
+open ForML.Keys in
+def stepValues : Sexp → Option Sexp
+  | .list [.atom "genkeyv", v] => do
+    let v ← pyval? v
+    pure (.list [ofCps (pyStr v), ofGenKey (genKeyV v)])
+  | .list [.atom "relkeyv", v] => do
+    let v ← pyval? v
+    pure (.list [ofCps (pyStr v), match relKeyV v with | some r => .list [.atom "ok", ofVersion r, ofCps (vstr r)] | none => .atom "invalid"])
+  | .list [.atom "vparse", t] => do
+    let t ← cps? t
+    pure (match vparse t with | some r => .list [.atom "ok", ofVersion r] | none => .atom "invalid")
+  | .list [.atom "vrank", .list vs] => do
+    let vs ← vs.mapM version?
+    let keys := vs.map cmpkey
+    let sorted := listing cmpKey keys
+    pure (Sexp.ofNats (keys.map (fun k => sorted.findIdx (fun x => cmpKey k x == .eq))))
   | _ => none
 
 def step (x : Sexp) : Sexp :=
@@ -187,7 +308,16 @@ def step (x : Sexp) : Sexp :=
     | none =>
       match stepManifest x with
       | some r => r
-      | none => .atom "bad-op"
+      | none =>
+        match stepLoad x with
+        | some r => r
+        | none =>
+          match stepStore x with
+          | some r => r
+          | none =>
+            match stepValues x with
+            | some r => r
+            | none => .atom "bad-op"
 
 end C18Drv
 
